@@ -19,7 +19,7 @@ From Rc Require Import RcModel.
 Import ListNotations.
 Local Open Scope Z_scope.
 
-Inductive sval := SDead | SNull | SVal (id : nat) (n : Z).   (* id is only meaningful for Ptr *)
+Inductive sval := SDead | SNull | SVal (id : nat) (n : Z).   (* id is only meaningful for Ptr; n = the contents (RcModel.push) *)
 Record sstate := { svars : list sval; screated : nat }.
 
 Definition sinit : sstate := {| svars := repeat SDead nvars; screated := 0 |}.
@@ -29,17 +29,18 @@ Definition is_dead (x : sval) : bool := match x with SDead => true | _ => false 
 
 (* String's null is the empty string (value 0); Variant's null is the null type *)
 Definition snull (f : flavour) : sval := match f with FStr => SVal 0 0 | _ => SNull end.
-Definition grow (f : flavour) (x : sval) (g : Z) : sval :=
+Definition grow (f : flavour) (x : sval) (m : Z) : sval :=
   match x with
-  | SVal i n => SVal i (n + g)
-  | SNull => SVal 0 g            (* Variant: toList() of a non-list is a fresh empty list *)
+  | SVal i n => SVal i (push n m)
+  | SNull => SVal 0 (push 0 m)   (* Variant: toList() of a non-list is a fresh empty list *)
   | SDead => SDead
   end.
 
 Definition spec_step (f : flavour) (s : sstate) (o : op) : sstate :=
   match o with
   | OCreate v n =>
-      if is_dead (sget s v) then
+      (* a variable that does not exist holds nothing: no object is created for it *)
+      if is_dead (sget s v) && Nat.ltb v (length (svars s)) then
         let id := match f with FPtr => screated s | _ => 0%nat end in
         {| svars := upd v (SVal id n) (svars s); screated := S (screated s) |}
       else s
@@ -60,7 +61,17 @@ Definition spec_step (f : flavour) (s : sstate) (o : op) : sstate :=
                 then sset (sset s b (sget s a)) a (sget s b) else s
       | _ => s
       end
-  | OWrite v => match f with FPtr => s | _ => if is_dead (sget s v) then s else sset s v (grow f (sget s v) 1) end
+  | OAssignRaw d sv =>            (* a raw pointer to the object sv refers to: the same value as sv *)
+      match f with
+      | FPtr => if negb (is_dead (sget s d)) && negb (is_dead (sget s sv)) then sset s d (sget s sv) else s
+      | _ => s
+      end
+  | OAssignVal v c =>
+      match f with
+      | FVar | FXml => if is_dead (sget s v) then s else sset s v (SVal 0 c)
+      | _ => s
+      end
+  | OWrite v m => match f with FPtr => s | _ => if is_dead (sget s v) then s else sset s v (grow f (sget s v) m) end
   | ODetach v => match f with FPtr => s | _ => if is_dead (sget s v) then s else sset s v (grow f (sget s v) 0) end
   | ODestroy v => sset s v SDead
   end.
